@@ -435,8 +435,7 @@ class History {
       if (swapsOn && tr.pendingAny && idx >= model->end() && ex(KF_MAP_HOLES)) {
         // the insertion bumps the column count before it forces the pending reorder, which then visits the new index
         ctx.hit(std::string("excluded:") + KF_MAP_HOLES);
-        ctx.desc << "  (forced read before a positional insertion)\n";
-        full_check();
+        if (!settle("before a positional insertion")) return skip("pending swap cannot be settled");
       }
       Sparse s = gen_sparse(false, true);
       ctx.desc << "  insert_column(" << show(s) << ", " << idx << ")\n";
@@ -451,17 +450,23 @@ class History {
   }
 
   // known findings around Base_swap::_orderRows: make the lazy reorder happen while the column indices are still 0..n-1
-  void settle_before_removal() {
-    if (swapsOn && tr.pendingAny && (ex(KF_RECT) || ex(KF_MAP_HOLES))) {
-      ctx.desc << "  (forced read before a removal)\n";
-      full_check();
-    }
+  // returns false when the reorder cannot be forced through a read (no column to read)
+  bool settle(const char* why) {
+    if (!(swapsOn && tr.pendingAny)) return true;
+    if (model->present_columns().empty()) return false;
+    ctx.desc << "  (forced read " << why << ")\n";
+    full_check();
+    return true;
+  }
+  bool settle_before_removal() {
+    if (ex(KF_RECT) || ex(KF_MAP_HOLES)) return settle("before a removal");
+    return true;
   }
 
   void do_remove_last() {
     if constexpr (!comp) {
       lastOp = "remove_last";
-      settle_before_removal();
+      if (!settle_before_removal()) return skip("pending swap cannot be settled");
       ctx.desc << "  remove_last()\n";
       if (model->end() > 0 && !model->present(model->end() - 1)) ctx.hit("op:remove_last-hole");
       m->remove_last();
@@ -473,7 +478,7 @@ class History {
   void do_remove_column() {
     if constexpr (!comp && mapc) {
       lastOp = "remove_column";
-      settle_before_removal();
+      if (!settle_before_removal()) return skip("pending swap cannot be settled");
       // mostly present columns, sometimes a hole ("If the column didn't existed, it will simply be considered as an
       // empty column")
       unsigned idx = t.below(model->end());
@@ -522,8 +527,7 @@ class History {
     if (range && swapsOn && tr.rows_displaced() && ex(KF_RANGE_PENDING)) {
       // entry-range sources are merged with container row indices, ignoring a row swap that is still pending
       ctx.hit(std::string("excluded:") + KF_RANGE_PENDING);
-      ctx.desc << "  (forced read before an entry-range addition)\n";
-      full_check();
+      settle("before an entry-range addition");
     }
     int coef = 1;
     if (kind != 0) coef = gen_coefficient();
@@ -672,19 +676,16 @@ class History {
       unsigned b = pres[t.below((unsigned)pres.size())];
       if (ra && !swap_allowed()) return skip("swap with a pending-reorder hazard");
       const bool setRows = ra && !O::has_intrusive_rows;
-      bool settle = false;
+      bool settleAfter = false;
       if (setRows && a != b && ex(KF_SET_ROWS)) {
         // set rows are keyed by column index: relabelling one swapped column collides with the not yet relabelled other
         // one in every row where both are non-zero (rows taken before / after a pending row swap, so that one is
         // applied first)
         ctx.hit(std::string("excluded:") + KF_SET_ROWS);
-        if (tr.pendingAny) {
-          ctx.desc << "  (forced read before swap_columns)\n";
-          full_check();
-        }
+        settle("before swap_columns");
         for (unsigned r = 0; r < RMAX; ++r)
           if (model->at(a, r) && model->at(b, r)) return skip("set rows: swapped columns share a row");
-        settle = true;
+        settleAfter = true;
       }
       ctx.desc << "  swap_columns(" << a << ", " << b << ")\n";
       m->swap_columns(a, b);
@@ -699,7 +700,7 @@ class History {
         tr.lazyErased[b] = x;
       }
       ctx.hit(a == b ? "op:swap_columns-same" : "op:swap_columns");
-      if (settle) {
+      if (settleAfter) {
         ctx.desc << "  (forced read after swap_columns)\n";
         full_check();
       }
